@@ -28,6 +28,15 @@ type c13Byte struct {
 }
 
 func runC13(r *core.Run) {
+	defer pairsInLongSequences(r, "ACGTTGCAacgtACGTGGCCAATTacgtTGCA", []pairLongFn{
+		{"DNATo2Bit(nil, seq)", func(in []byte) []byte { return sequtil.DNATo2Bit(nil, in) }, func(in []byte) ([]byte, bool) { return ref.Pack2Bit(in) }},
+	})
+	defer srcWindows(r, "ACGTacgt", 5, []string{"ACGTTGCAACGTACGTacgtACGTTGCAACGTAAACGT", string(longSeq(301))}, []srcWindowFn{
+		{"DNATo2Bit(nil, seq)", func(in []byte) { sequtil.DNATo2Bit(nil, in) }},
+		{"DNATo2Bit(dst with spare capacity, seq)", func(in []byte) { sequtil.DNATo2Bit(make([]byte, 2, 64), in) }},
+		{"DNAFrom2Bit(nil, packed)", func(in []byte) { sequtil.DNAFrom2Bit(nil, in) }},
+		{"DNAFrom2Bit(dst with spare capacity, packed)", func(in []byte) { sequtil.DNAFrom2Bit(make([]byte, 2, 64), in) }},
+	})
 	firstCallClause(r, "sequtil.DNA", "sequtil.Ntoi", "sequtil.Iton")
 	askedAgain(r, []againFunc{
 		{"DNATo2Bit", func(in []byte) string { return fmt.Sprintf("%x", sequtil.DNATo2Bit([]byte("x"), in)) }},
